@@ -41,4 +41,9 @@ theorem C05_close_codes (c : Nat) : isValidCloseStatus c = wireCode c := by
         simp; omega
       simp [this, this', h1]
 
+/-- generated fact: iteration is receiving — `__iter__` is exactly `while True: yield self.recv()`, `__next__` is
+    `return self.recv()`, `next` is `return self.__next__()`; the model's one receive operation stands for all of them (the
+    correspondence runs every other session through these spellings). -/
+theorem iteration_is_recv : Gen.iterationIsRecv = true := by decide
+
 end WS.Props.C05
